@@ -276,6 +276,25 @@ def obligation_name(unit, e):
     return f"{unit}/{where}/{kind}" + (f" [{src}]" if src else "")
 
 
+# ------------------------------------------------------------------ pre-steps
+def expand_fixture(crate, outname):
+    """expand a fixture crate with the REAL proc-macro crates from /repo; writes out/aux/<outname>"""
+    cdir = os.path.join(ROOT, "fixtures", crate)
+    shutil.copyfile(os.path.join(REPO, "Cargo.lock"), os.path.join(cdir, "Cargo.lock"))
+    env = dict(os.environ)
+    env["CARGO_NET_OFFLINE"] = "true"
+    env["CARGO_TARGET_DIR"] = os.path.join(OUT, "target-expand")
+    aux = os.path.join(OUT, "aux")
+    os.makedirs(aux, exist_ok=True)
+    cmd = ["cargo", "+nightly", "rustc", "--offline", "--lib", "--", "-Zunpretty=expanded"]
+    p = subprocess.run(cmd, cwd=cdir, env=env, stdout=subprocess.PIPE, stderr=subprocess.PIPE, text=True, timeout=1800)
+    if p.returncode != 0 or "impl" not in p.stdout:
+        raise Undecided(f"fixture expansion of {crate} failed (the derive crate does not build or rejects the fixture):\n" + p.stderr[-1500:])
+    with open(os.path.join(aux, outname), "w") as f:
+        f.write(p.stdout)
+    return "cd fixtures/%s && %s > out/aux/%s" % (crate, " ".join(cmd), outname)
+
+
 # ------------------------------------------------------------------ Kani
 
 class KaniResult:
